@@ -1,6 +1,6 @@
 """C10: any completion order of asynchronous metadata requests gives a correct result."""
 import vlib
-from props import asynclib as al, solverstream as ss, enctie, tracecheck as tc
+from props import asynclib as al, solverstream as ss, enctie, tracecheck as tc, solvertie
 
 THEOREMS = ["C10_once_checker", "C10_valid_oracle", "C10_reference", "C10_any_order_adds_facts",
             "C10_any_order_complete", "C10_any_order_once", "C10_verdicts_agree", "C10_protocol_never_asks_twice"]
@@ -72,6 +72,13 @@ def run(res, tier, seed, replay):
                           dict(ss.replay_obj(r), extra_args=["--sort-deps"]))
     enctie.annotate(erecs)
     tc.annotate(erecs)
+    solvertie.annotate(erecs)
+    for r in erecs:
+        if not solvertie.ok(r):
+            res.tie_break(f"whole-run correspondence no longer checks under completion order {r['stream']}: with the logged completion order "
+                          f"of the encoder's futures as input, the model of Solver::solve (Cdcl/Solver.v) computes another result, another "
+                          f"sequence of trail events or another clause database than the implementation: {r['solver']}",
+                          dict(ss.replay_obj(r), solver_model=r["solver"]))
     for r in erecs:
         if "enc" not in r:
             continue
@@ -124,7 +131,7 @@ def run(res, tier, seed, replay):
     res.rule = ("every case is solved synchronously and under completion orders chosen by the schedule-controlled executor: FIFO, "
                 "LIFO, 3 random, and a bounded depth-first enumeration of the alternatives at every choice point; non-trivial = "
                 "case with >= 3 distinct schedules")
-    res.extra.update({"schedules_run": nsched, "max_simultaneously_pending": maxpend, "hangs": len(hangs), "runs_with_sort_using_the_cache": len(drecs)}, **enctie.stats(erecs))
+    res.extra.update({"schedules_run": nsched, "max_simultaneously_pending": maxpend, "hangs": len(hangs), "runs_with_sort_using_the_cache": len(drecs)}, **enctie.stats(erecs), **solvertie.stats(erecs))
     return res.finish(CHECKER, vlib.TRUSTED_BASE,
                       ["single-threaded executor; provider futures for get_candidates / get_dependencies are the schedule points "
                        "(filter/sort complete immediately)", "solutions may legitimately differ between schedules; verdict and validity are compared"])
